@@ -12,7 +12,7 @@ import os
 
 import numpy as np
 
-from .core import Rejected
+from .core import Rejected, nint
 
 NAMES = ["invert_freq", "apply_channel_mask", "extract_samps", "extract_chans", "extract_bands",
          "downsample", "subband", "remove_zerodm"]
@@ -116,7 +116,7 @@ def needs_disp_band(name) -> bool:
 # ------------------------------------------------------------------ calling the library
 def call(name, reader, outdir, params, gulp, start, nsamps, allocator=None) -> list:
     """Invoke the transform; returns the list of output paths it reported."""
-    kw = {"gulp": gulp, "start": start, "nsamps": nsamps, "quiet": True}
+    kw = {"gulp": nint(gulp), "start": nint(start), "nsamps": nint(nsamps), "quiet": True}
     if gulp is None:  # the gulp argument left at its default
         del kw["gulp"]
     if allocator is not None:
@@ -128,10 +128,10 @@ def call(name, reader, outdir, params, gulp, start, nsamps, allocator=None) -> l
                                           outfile_name=os.path.join(outdir, "out_mask.fil"), **kw)]
     if name == "extract_samps":
         n = nsamps if nsamps is not None else reader.header.nsamples - start
-        kws = {"quiet": True} if gulp is None else {"gulp": gulp, "quiet": True}
+        kws = {"quiet": True} if gulp is None else {"gulp": nint(gulp), "quiet": True}
         if allocator is not None:
             kws["allocator"] = allocator
-        return [reader.extract_samps(start, n, outfile_name=os.path.join(outdir, "out_samps.fil"), **kws)]
+        return [reader.extract_samps(nint(start), nint(n), outfile_name=os.path.join(outdir, "out_samps.fil"), **kws)]
     if name == "extract_chans":
         return list(reader.extract_chans(np.array(params["chans"]), outfile_base=os.path.join(outdir, "out"),
                                          batch_size=params["batch_size"], **kw))
